@@ -50,7 +50,7 @@ P = {
    text="All histories of add/remove up to length 5 over two universes of services (four plain services sharing message types; generic services Gen<Alpha>/Gen<Beta> whose names differ only by type parameter); after every step every (service,message) pair is called and compared with the set-of-registered-names model; sample on real TCP.",
    note="hook H2 (same ServerState code as TCP)", ref="§5 C13"),
  "C14": dict(cat="fault_enumeration", technique="runtime monitoring: turmoil network-fault simulations with exactly-once / no-swap / timeout-bound history checker",
-   text="Seeded turmoil simulations (partition, hold, release, repair at generated instants; sequential and concurrent requests, handler latency, client timeouts, clients that are clones of one configured client) with a per-request history: reply matches request, handler ran at most once, errors only connection/timeout, completion within the timeout. Complement on real loopback TCP: many concurrent requests multiplexed over one channel, replies matched to requests.",
+   text="Seeded turmoil simulations (partition, hold, release, repair at generated instants; sequential and concurrent requests, handler latency, client timeouts, clients that are clones of one configured client) with a per-request history: reply matches request, handler ran at most once, errors only connection/timeout, completion within the timeout. Complements on real loopback TCP: many concurrent requests multiplexed over one channel, replies matched to requests; and the same history checker behind a TCP forwarder that cuts (FIN/RST) or stalls connections at seeded moments, also in the middle of a reply body (handler ran at most once, errors only connection/timeout, answer within timeout + a generous real-time bound judged only when the process' own scheduling lag was small). Thorough adds ThreadSanitizer on the multiplex workload.",
    note="datacake-rpc's own `simulation` feature; bodies <= 100 B because of a turmoil 0.4.0 defect", ref="§5 C14"),
  "C15": dict(cat="exploration", technique="runtime monitoring: selection oracle over all layouts <= 4x4, positions, levels and prior-selection histories (executed exhaustively)",
    text="Every layout of 1-4 DCs x 1-4 nodes, every local position, level and history of <=2 prior selections through the public NodeSelector trait, plus membership-update sequences through the real selector actor; result must be distinct live non-local peers of the required count, NotEnoughNodes only when too few exist.",
@@ -61,7 +61,7 @@ P = {
  "C17": dict(cat="exploration", technique='runtime monitoring + sanitizers: map reference model over generated Storage call sequences with close/reopen; ASan and valgrind memcheck over the FFI backends',
    text="SQLite (file, memory), LMDB and MemStore driven with generated contract-conforming call sequences (extreme ids, empty/large payloads, tombstone-first, duplicates) against a map model compared after every call (full comparison, or list-first / partial reads so that a read cannot mask a later one), reopen after random prefixes. LMDB sequences run in child processes (a reproducible crash is a violation). Thorough: the same workload under AddressSanitizer and under valgrind memcheck (the C libraries ASan does not instrument).",
    note="keyspace-list rule relaxed where the contract is silent", ref="§5 C17"),
- "C18": dict(cat="exploration", technique="runtime monitoring: lost-update checker over concurrent first uses of a keyspace",
+ "C18": dict(cat="exploration", technique="runtime monitoring: lost-update checker over concurrent first uses of a keyspace; ThreadSanitizer on the same workload (thorough)",
    text="k tasks concurrently get-or-create a fresh keyspace through every entry point and send one acknowledged mutation each; the set a later lookup serializes must contain all k, and the keyspace must be advertised by get_keyspace_info with a stamp covering them; creation counter observes overlap.",
    note="hook H6; parallel interleavings sampled", ref="§5 C18"),
  "C19": dict(cat="exploration", technique="runtime monitoring + sanitizers: state-equivalence probe between sender and receiver; Miri on the unchecked decode path",
